@@ -70,3 +70,30 @@ func H_C07_cli_dir_twice() {
 	}
 	vReach("end")
 }
+
+// a directory whose name contains glob metacharacters: -d takes the path literally
+func H_C06_cli_dir_literal_name() {
+	vSym = true
+	val := vInjVal("val")
+	src, f := vAnnotatedSrc(val, false)
+	want, _ := vAnnotatedSrc(val, true)
+	dir := []string{"p[v1]", "p*", "p?x", "d"}[vndChoice("dir", 4)]
+	vFSMkdir(dir)
+	vFSPut(dir+"/a.pb.go", src)
+	vParseResult(dir+"/a.pb.go", f, nil)
+	// look-alikes a pattern would match instead
+	for _, other := range []string{"pv", "p1", "pxx"} {
+		vFSMkdir(other)
+		vFSPut(other+"/a.pb.go", src)
+		vParseResult(other+"/a.pb.go", f, nil)
+	}
+	ok := vNoPanic(func() { _ = handleDir(vFSPath(dir)) })
+	vAssert(ok, "C06 cli -d: no crash")
+	got, found := vFSGet(dir + "/a.pb.go")
+	vAssert(found && got == want, "C06 cli -d: the files of the directory named are merged")
+	for _, other := range []string{"pv", "p1", "pxx"} {
+		g, _ := vFSGet(other + "/a.pb.go")
+		vAssert(g == src, "C06 cli -d: files of other directories are untouched")
+	}
+	vReach("end")
+}
